@@ -1827,7 +1827,7 @@ Proof.
       * split; auto. apply Htop; simpl; auto. intros [].
       * split; auto. split; simpl; auto. rewrite Ec. split; [exact B1'|]. split.
         -- intros fr0 [<-|Hin] Hg; [|apply (B2 fr0 Hin Hg)]. simpl in Hg. apply (B2 fr); [left; reflexivity|].
-           destruct Hfr as [_ (tys & Hk & _)]. eapply gb_kid; eauto. rewrite Hk. rewrite Etodo. apply in_or_app. right. left. reflexivity.
+           destruct Hfr as [_ (tys & Hk & _)]. apply (gb_kid (f_ty fr) k); [|exact Hg]. rewrite Hk. rewrite ?Etodo. apply in_or_app. right. left. reflexivity.
         -- intros fr0 [<-|Hin] Hc; [destruct Hc | apply (B3 fr0 Hin Hc)].
     + (* the plain write *)
       destruct Hfr as ((c & Hc & _) & _). rewrite Hc in H. inversion H; subst; clear H. simpl in *. split.
@@ -1857,7 +1857,7 @@ Proof.
       * simpl in Hs. destruct Hs as (_ & Hpp & (more & Htodo) & Hpar & _).
         assert (Hgp : gen_bad (f_ty parent)).
         { unfold frame_ok in Hpar. rewrite Hpp in Hpar. destruct Hpar as [_ (tys & Hk & _)].
-          eapply gb_kid; eauto. rewrite Hk. rewrite Htodo. apply in_or_app. right. left. reflexivity. }
+          apply (gb_kid (f_ty parent) (f_ty fr)); [|exact Hg]. rewrite Hk. rewrite Htodo. apply in_or_app. right. left. reflexivity. }
         split; simpl; auto. rewrite Ec. split; [exact B1'|]. split.
         -- intros fr0 [<-|Hin] Hg0; [apply (B2 parent); [right; left; reflexivity | exact Hg0] | apply (B2 fr0); [right; right; exact Hin | exact Hg0]].
         -- intros fr0 [<-|Hin] Hc0; [exact Hgp | apply (B3 fr0); [right; right; exact Hin | exact Hc0]].
@@ -1928,3 +1928,84 @@ Proof.
   apply andb_true_iff in H. destruct H as [H1 H2]. destruct (t' =? t); auto.
   destruct d; auto; discriminate.
 Qed.
+
+(* ------------------------------------------------------------------------- *)
+(* The run-alone result [alone] (Model/Cache.v) is a result of a reachable state *)
+
+Lemma run_repeat_none tb s i n : step tb s i = None -> run tb s (repeat i n) = s.
+Proof. intro H. induction n as [|n IH]; simpl; auto. rewrite H. exact IH. Qed.
+
+Lemma run_thread_run tb fuel s i : run_thread tb fuel s i = run tb s (repeat i fuel).
+Proof.
+  revert s. induction fuel as [|k IH]; intro s; simpl; auto.
+  destruct (step tb s i) eqn:E; auto. rewrite run_repeat_none; auto.
+Qed.
+
+Lemma alone_is_a_result tb j r :
+  alone tb j = Some r ->
+  exists th rest, In th (st_threads (run tb (init [[j]]) (repeat 0%nat seq_fuel))) /\ th_done th = (j, r) :: rest.
+Proof.
+  unfold alone. rewrite run_thread_run. set (s := run tb (init [[j]]) (repeat 0%nat seq_fuel)).
+  pose proof (run_jobs tb [[j]] (repeat 0%nat seq_fuel)) as Hj. fold s in Hj.
+  destruct (st_threads s) as [|th ths] eqn:E; [discriminate|].
+  destruct (th_done th) as [|[j' r'] rest] eqn:Ed; [discriminate|]. intro H. inversion H; subst.
+  exists th, rest. split; [left; reflexivity|].
+  simpl in Hj. inversion Hj as [[H1 H2]]. unfold jobs_of in H1. rewrite Ed in H1. simpl in H1. inversion H1; subst. exact Ed.
+Qed.
+
+Theorem alone_ok_is_reference tb j tr kinds : alone tb j = Some (ROk tr kinds) -> tr = ref tb (snd j) (fst j).
+Proof.
+  intro H. destruct (alone_is_a_result _ _ _ H) as (th & rest & Hin & Hd).
+  destruct (results_match tb [[j]] _ th (j, ROk tr kinds) Hin) as [Hp|(k & Hk)].
+  - rewrite Hd. left; reflexivity.
+  - discriminate.
+  - simpl in Hk. inversion Hk; subst. reflexivity.
+Qed.
+
+Theorem alone_panic_is_genuine tb j : alone tb j = Some RPanic -> job_bad tb (fst j) (snd j).
+Proof.
+  intro H. destruct (alone_is_a_result _ _ _ H) as (th & rest & Hin & Hd).
+  apply (failures_are_genuine tb [[j]] _ th (j, RPanic) Hin); [rewrite Hd; left; reflexivity | reflexivity].
+Qed.
+
+Lemma list_ty_eqb_refl l : list_ty_eqb l l = true.
+Proof. unfold list_ty_eqb. apply (list_eqb_eq N.eqb); [intros; apply N.eqb_eq | reflexivity]. Qed.
+
+(* calls that involve no unsupported type: the result is the run-alone result *)
+Theorem good_jobs_match_alone tb jobs sched th jr :
+  In th (st_threads (run tb (init jobs) sched)) -> In jr (th_done th) ->
+  ~ job_bad tb (fst (fst jr)) (snd (fst jr)) -> alone tb (fst jr) <> None ->
+  same_result (alone tb (fst jr)) (snd jr) = true.
+Proof.
+  intros Hth Hjr Hn Ha. destruct (good_jobs_return_reference tb jobs sched th jr Hth Hjr Hn) as (k & Hk).
+  rewrite Hk. destruct (alone tb (fst jr)) as [[tr0 k0|]|] eqn:E; [| |congruence].
+  - simpl. rewrite (alone_ok_is_reference _ _ _ _ E). destruct jr as [[t v] r]. simpl. apply list_ty_eqb_refl.
+  - exfalso. apply Hn. destruct jr as [[t v] r]. exact (alone_panic_is_genuine _ _ E).
+Qed.
+
+(* a supported table has no bad jobs *)
+Lemma supported_no_gen_bad tb t : supported tb -> ~ gen_bad tb t.
+Proof. intros Hs H. induction H as [t Hb|t c _ _ IH]; auto. rewrite (Hs t) in Hb. discriminate. Qed.
+
+Fixpoint vsize (v : val) : nat :=
+  match v with V subs => S (list_sum (map (fun sv => vsize (snd sv)) subs)) end.
+
+Lemma vsize_sub s v subs : In (s, v) subs -> (vsize v < vsize (V subs))%nat.
+Proof.
+  intro H. simpl. induction subs as [|[s0 v0] subs IH]; simpl in *; [contradiction|].
+  destruct H as [H|H]; [inversion H; subst; lia | specialize (IH H); lia].
+Qed.
+
+Lemma supported_no_call_bad tb : supported tb -> forall v t, ~ call_bad tb t v.
+Proof.
+  intros Hs v. remember (vsize v) as n eqn:En. revert v En.
+  induction n as [n IH] using lt_wf_ind. intros v En t H.
+  inversion H as [u subs i v' c Hin _ [Hg|Hc] | u subs t' v' Hin [Hg|Hc]]; subst.
+  - exact (supported_no_gen_bad _ _ Hs Hg).
+  - eapply (IH (vsize v')); eauto. eapply vsize_sub; eauto.
+  - exact (supported_no_gen_bad _ _ Hs Hg).
+  - eapply (IH (vsize v')); eauto. eapply vsize_sub; eauto.
+Qed.
+
+Lemma supported_no_job_bad tb t v : supported tb -> ~ job_bad tb t v.
+Proof. intros Hs [H|H]; [exact (supported_no_gen_bad _ _ Hs H) | exact (supported_no_call_bad _ Hs _ _ H)]. Qed.
